@@ -136,6 +136,28 @@ def run(ctx):
             metas.append(case)
     finally:
         rw.torch = real_torch
+    # one VERY long output (more than 2^24 rows: above that, row numbers are not exact in float32): the two-vertex graph of one transposition; every walk
+    # alternates between the two states, so the whole output is known: y[i] = i // width, x[i] = start if y[i] is even else the other state
+    import gc
+    from cayleypy import CayleyGraph, CayleyGraphDef
+    big_w, big_l = 2 ** 22 + 3, 5                                   # 20 971 535 rows > 2^24 = 16 777 216
+    gbig = CayleyGraph(CayleyGraphDef.create([[1, 0]]), device="cpu")
+    try:
+        xb, yb = gbig.random_walks(width=big_w, length=big_l, mode="classic")
+        okb = int(xb.shape[0]) == big_w * big_l and int(yb.shape[0]) == big_w * big_l
+        if okb:
+            want_y = torch.arange(big_w * big_l, dtype=torch.int64) // big_w
+            okb = bool(torch.equal(yb.to(torch.int64), want_y)) and bool(torch.equal(xb.reshape(-1, 2)[:, 0].to(torch.int64), want_y % 2))
+            del want_y
+        ctx.count("huge_classic_walk_rows", big_w * big_l)
+        if not okb:
+            ctx.violation("property_fails", f"classic walks with width {big_w} and length {big_l} ({big_w * big_l} rows) on the two-vertex graph: y is not the step count "
+                          "i // width or x does not alternate between the two states", {"graph": {"kind": "perm", "gens": [[1, 0]], "central": [0, 1]}, "mode": "classic",
+                                                                                         "width": big_w, "length": big_l, "claim": "huge_output"}, True)
+        del xb, yb
+    except MemoryError:
+        ctx.count("huge_classic_walk_skipped_no_memory")
+    gc.collect()
     ctx.sample(metas[0]); ctx.sample(metas[-1])
     bad = ctx.coq_failing("Base GraphImpl Hash Walks AlgoRun BfsRun", "", "walk_case", cases, "check_walk_case", "walks", shard=ctx.budget(25, 50))
     ctx.cov["disagreements_checked"] = len(cases)
